@@ -317,7 +317,7 @@ SPEC = {
              "S = submit storm: 1500-2000 caller tasks on 3 workers, up to 900 of them (about 7 in 12) aborted from outside within 3 ms while the submissions race "
              "for the 1024 channel slots (request id allocated -> slot awaited -> task pushed); N = R with about one answer in 12 sent on a negative stream id (-1, -2, -100, -32768, -32767); K = 1..1500 callers abandoned "
              "while the mock holds their answers: the orphaner's tick must end the connection iff more than 1024 ids have been "
-             "orphaned for over 1 s (model: orphaner_tick_breaks), then every live caller fails and none holds rows. "
+             "orphaned for over 1 s (model: old_ids / orphaner_tick_breaks, C02_tick_char), then every live caller fails and none holds rows. "
              "O = read_response_frame over generated byte streams (incl. a 256 MiB + 64 KiB body) against the extracted reader "
              "model / its law. non-trivial = allocation and lookup/orphan (sm), a request written and a caller completed (e2e); "
              "distinct = distinct case lines"),
